@@ -6,7 +6,7 @@ Import ListNotations.
 
 Lemma compile_sentence_concepts s s' x : concepts s = concepts s' -> compile_sentence s x = compile_sentence s' x.
 Proof.
-  intros H. induction x as [c|subj label newpred body|req wp main wh|l vals y IH]; cbn [compile_sentence]; try reflexivity.
+  intros H. induction x as [c|subj label newpred body|req wp main wh|l vals y IH|req neg v sv ov]; cbn [compile_sentence]; try reflexivity.
   - unfold compile_choice, var_of, auto_var, key_of, find_concept. now rewrite H.
   - now rewrite IH.
 Qed.
